@@ -124,7 +124,9 @@ def unchunkBlk (w : Blk) (wst : Strand) (r : Blk) : Blk :=
 def okChunkDown (l : Location) (w : Blk) (wst : Strand) (ans : Option Location) (keepBlocks : Bool := true) : Bool :=
   if wst = .unstranded ∨ w.2 ≤ w.1 then true else        -- a chunk holds at least one base
   match l with
-  | .empty => ans == some .empty
+  -- nothing to lift: the empty location comes back, or the call refuses (the property speaks about the part of
+  -- a location inside the chunk; it does not oblige the call to accept an empty one)
+  | .empty => ans == some .empty || ans.isNone
   | _ =>
     let clips := (locationBlocks l).filterMap (clip w)
     match ans with
@@ -137,5 +139,55 @@ def okChunkDown (l : Location) (w : Blk) (wst : Strand) (ans : Option Location) 
         sortNat (((locationBlocks m).map (unchunkBlk w wst)).flatMap blkAsc) == sortNat (clips.flatMap blkAsc) &&
         (!keepBlocks || (locationBlocks m).length == clips.length) &&
         (locationBlocks m).all (fun r => r.2 ≤ w.2 - w.1)
+
+/-! ### moving a location from below one chunk onto another chunk / the chromosome, with real sequence -/
+
+/-- `relocate`: a chunk A (window `w1` on strand `s1`) is cut from the chromosome `G`; optionally a spliced
+    sequence sits on the chunk by the placement `tx`; the child location `c` lives on the nearest of these.  It is
+    moved onto the target: the chunk `w2` on strand `s2`, or (`tgt = none`) the whole chromosome.
+
+    Written from the property: the child's bases are composed through EVERY level up to chromosome coordinates;
+    those inside the target window, expressed in the target's coordinates (mirrored and strand-flipped on a minus
+    window), are what the answer must cover, 5'→3' in the same order — the empty location exactly when none is
+    inside — and the letters the answer reads on the target must be the chromosome's letters at those composed
+    positions (complemented where the composed orientation is minus). -/
+def okRelocate (G : List Char) (w1 : Blk) (s1 : Strand) (tx : Option Location) (c : Location)
+    (tgt : Option (Blk × Strand)) (ans : Option (Location × List Char)) : Bool :=
+  let w2 : Blk := match tgt with | some t => t.1 | none => (0, G.length)
+  let s2 : Strand := match tgt with | some t => t.2 | none => Strand.plus
+  -- a chunk holds at least one base and has a direction (as in `okChunkDown`)
+  if w1.2 ≤ w1.1 ∨ w2.2 ≤ w2.1 ∨ s2 = Strand.unstranded then true
+  -- hierarchies that cannot exist must be refused: a window that is not on the chromosome, a placement that
+  -- does not fit the chunk, a child that does not fit its own parent
+  else if G.length < w1.2 ∨ G.length < w2.2 then ans.isNone
+  else if (match tx with | some t => t == Location.empty || (locationBlocks t).any (fun r => w1.2 - w1.1 < r.2) | none => false)
+    then ans.isNone
+  else
+  let len0 := match tx with | some t => (locationBases t).length | none => w1.2 - w1.1
+  if (locationBlocks c).any (fun r => len0 < r.2) then ans.isNone
+  -- the empty location has no bases and no parent: refusing it and answering it are both fine
+  else if c == Location.empty then (match ans with | none => true | some a => a.1 == Location.empty)
+  else
+  let start := locationBases c
+  let cst := strandOf c
+  if start.isEmpty ∧ ans.isNone then true            -- a location without bases: refusing is accepted
+  else
+  let places : List (Option Location) := (match tx with | some t => [some t] | none => []) ++ [some (Location.single w1 s1)]
+  match composeLevels start cst places with
+  | none => ans.isNone          -- a position off its placement / a level without direction
+  | some (want, wst) =>
+    let inside := want.filter (fun p => decide (w2.1 ≤ p) && decide (p < w2.2))
+    let expect := inside.map (fun p => if s2 = Strand.minus then w2.2 - 1 - p else p - w2.1)
+    match ans with
+    | none => false
+    | some (m, letters) =>
+      if inside.isEmpty then m == Location.empty
+      else
+        let exact := allNonOverlap c places ∧ wst ≠ Strand.unstranded ∧ cst ≠ Strand.unstranded
+        m != Location.empty && wfLocation m &&
+        locationStrand? m == some (compose wst s2) &&
+        (if exact then locationBases m == expect else sortNat (locationBases m) == sortNat expect) &&
+        (locationBlocks m).all (fun r => r.2 ≤ w2.2 - w2.1) &&
+        (if exact then readSeq G inside wst == some letters else true)
 
 end BioCantor.Spec
